@@ -126,6 +126,19 @@ impl MutatorKind {
     }
 }
 
+/// decide whether a mutation fires for the given mutation rate.
+///
+/// draws one value from the entropy source and compares it with the rate, so
+/// that a rate of 0.0 never mutates and a rate of 1.0 always does, whatever the
+/// source returns (fuzzer-supplied bytes can decode to any f64, including
+/// values outside [0, 1) and NaN, and to 0.0 when the input is exhausted).
+pub(crate) fn should_mutate(source: &mut GenerationSource, rate: f64) -> bool {
+    use crate::generator::EntropySource;
+
+    let roll = source.gen_f64();
+    rate > 0.0 && (rate >= 1.0 || roll < rate)
+}
+
 /// Trait for implementing mutation strategies.
 ///
 /// Mutators can modify opcode arguments during generation to create
